@@ -125,6 +125,12 @@ def jeq(a, b):
     return _close(a, b)
 
 
+def jclose(a, b):
+    """rounding-tolerant JSON equality in both modes: for concrete (untraced) comparisons of two different floating-point
+    computation orders (e.g. real numpy vs row-wise)"""
+    return _close(a, b)
+
+
 def jsame(a, b):
     """exact JSON-content identity, also on replay: for assertions of the form "state left exactly as before",
     where no arithmetic may have happened at all (so no rounding tolerance applies)"""
